@@ -3,6 +3,7 @@ package props
 import (
 	"fmt"
 	"go/token"
+	"strings"
 
 	"golang.org/x/tools/go/ssa"
 
@@ -141,6 +142,19 @@ func inputWireOrigin(p *load.Program, run *report.Run, fn *ssa.Function, key str
 					check(t.Val, t)
 				}
 			case *ssa.Call:
+				// a helper that builds the pairs in place in a window of the wire storage
+				if cal := t.Call.StaticCallee(); cal != nil && load.InModule(cal) && cal != mk {
+					if ri, wi, ok := inPlacePairMaker(cal); ok && ri < len(t.Call.Args) && wi < len(t.Call.Args) {
+						run.Count("input-wire-stores", 2)
+						pos := p.Rel(t.Pos())
+						if !isOffset(t.Call.Args[ri], 0) {
+							run.Violate(rule, key, pos, cal.Name()+" is not given the offset whose permute bit O1 establishes", nil)
+						} else {
+							run.OK(rule, key, pos, cal.Name()+" stores {fresh, fresh^r} into every element of the window it is given")
+						}
+						continue
+					}
+				}
 				if cal := t.Call.StaticCallee(); cal != nil && load.InModule(cal) && cal != mk {
 					for _, a := range t.Call.Args {
 						if isWire(a) {
@@ -187,4 +201,75 @@ func loopSet(b *ssa.BasicBlock) string {
 		}
 	}
 	return out
+}
+
+// inPlacePairMaker: fn fills every element of a []ot.Wire parameter, in one loop, with a fresh label and
+// that label xor the ot.Label parameter: `w[i].L0, err = ot.NewLabel(rand); w[i].L1 = w[i].L0;
+// w[i].L1.Xor(r)`.  It returns the indices of the offset parameter and of the window parameter.
+func inPlacePairMaker(fn *ssa.Function) (rIdx, wIdx int, ok bool) {
+	rIdx, wIdx = -1, -1
+	for i, prm := range fn.Params {
+		switch {
+		case strings.HasSuffix(prm.Type().String(), "/ot.Label"):
+			rIdx = i
+		case prm.Type().String() == "[]"+load.Module+"/ot.Wire":
+			wIdx = i
+		}
+	}
+	if rIdx < 0 || wIdx < 0 || fn.Blocks == nil {
+		return 0, 0, false
+	}
+	wires := fn.Params[wIdx]
+	elemField := func(addr ssa.Value) (idx ssa.Value, field string, ok bool) {
+		fa, isFA := addr.(*ssa.FieldAddr)
+		if !isFA {
+			return nil, "", false
+		}
+		ia, isIA := fa.X.(*ssa.IndexAddr)
+		if !isIA || ia.X != ssa.Value(wires) {
+			return nil, "", false
+		}
+		return ia.Index, structFieldName(fa.X.Type(), fa.Field), true
+	}
+	var l0Fresh, l1Copy, l1Xor bool
+	other := false
+	for _, b := range fn.Blocks {
+		for _, ins := range b.Instrs {
+			switch t := ins.(type) {
+			case *ssa.Store:
+				_, f, isEl := elemField(t.Addr)
+				if !isEl {
+					if ia, isIA := t.Addr.(*ssa.IndexAddr); isIA && ia.X == ssa.Value(wires) {
+						other = true // a whole wire stored: not this idiom
+					}
+					continue
+				}
+				switch f {
+				case "L0":
+					if ex, isEx := t.Val.(*ssa.Extract); isEx && ex.Index == 0 {
+						if c, isC := ex.Tuple.(*ssa.Call); isC && c.Call.StaticCallee() != nil && c.Call.StaticCallee().String() == load.Module+"/ot.NewLabel" && blockReaches(b, b) {
+							l0Fresh = true
+							continue
+						}
+					}
+					other = true
+				case "L1":
+					if ld, isLd := t.Val.(*ssa.UnOp); isLd && ld.Op == token.MUL {
+						if _, f2, isEl2 := elemField(ld.X); isEl2 && f2 == "L0" {
+							l1Copy = true
+							continue
+						}
+					}
+					other = true
+				}
+			case *ssa.Call:
+				if cal := t.Call.StaticCallee(); cal != nil && cal.String() == "(*"+load.Module+"/ot.Label).Xor" && len(t.Call.Args) == 2 {
+					if _, f, isEl := elemField(t.Call.Args[0]); isEl && f == "L1" && t.Call.Args[1] == ssa.Value(fn.Params[rIdx]) {
+						l1Xor = true
+					}
+				}
+			}
+		}
+	}
+	return rIdx, wIdx, l0Fresh && l1Copy && l1Xor && !other
 }
